@@ -81,7 +81,8 @@ impl<T> ResourceStorage<T> {
 
 	#[must_use]
 	pub fn is_empty(&self) -> bool {
-		self.resources.is_empty()
+		// resources that are waiting to be picked up by the audio thread count too
+		self.resources.is_empty() && self.new_resource_consumer.is_empty()
 	}
 }
 
